@@ -533,3 +533,70 @@ PROPS["C10"] = {
                 "clvmr intern_tree = set of distinct subtrees (InternContract): compared through cost() after every add and the exact final cost",
                 "release-build u64 wrapping (overflow-checks = false in the harness profile); with overflow checks the same inputs panic inside add_spend_bundles"],
 }
+
+PROPS["C19"] = {
+    "extractors": ["ladders", "opcodes", "flags", "constants", "precomputed"],
+    "harness": "C19",
+    "theorems": [
+        "ChiaModel.C19.ff_shape", "ChiaModel.C19.ff_shape_proper", "ChiaModel.C19.ff_shape_full_false", "ChiaModel.C19.witness_accepted",
+        "ChiaModel.C19.ff_guards", "ChiaModel.C19.ff_iff", "ChiaModel.C19.ff_parent_same_puzzle", "ChiaModel.C19.ff_corruption",
+        "ChiaModel.C19.ff_preserves",
+        "ChiaModel.C19.fp_stream", "ChiaModel.C19.fp_injective", "ChiaModel.C19.fp_injective_accepted",
+        "ChiaModel.C19.dedup_flag_iff", "ChiaModel.C19.dedup_flag", "ChiaModel.C19.dedup_flag_bundle",
+    ],
+    "gen_theorems": [],
+    "open": [
+        "ff_shape_full (\"the rewritten solution differs from the original ONLY in lineage parent, parent amount and coin amount\", for every "
+        "accepted call) is FALSE for the current code when the (valid) solution or lineage proof carries data after its last field - a genuine, benign "
+        "finding: proved negation witness ff_shape_full_false, reproduced on the implementation (cases marked @extra-tail, corpus/C19.case, known_findings.txt); "
+        "ff_shape states the exact form, ff_shape_proper the full-strength sentence for proper lists; patches/repo_fix_c19.patch (rebuild the solution in place) "
+        "makes ff_shape_full provable once the model's result keeps t1 / t2 instead of nil",
+        "\"runs successfully against the new coin, satisfying its self-assertions, and creates the same coins\" is a statement about the CLVM program "
+        "singleton_top_layer_v1_1 (chia-puzzles, external): proved conditionally on the hypothesis structure SingletonSpec (ff_preserves) and checked "
+        "unconditionally at run time (harness prop=: both solutions run with clvmr and validated by run_spendbundle in mempool mode)",
+        "that the 967 bytes of SINGLETON_TOP_LAYER_V1_1 hash to SINGLETON_TOP_LAYER_V1_1_HASH is confirmed by the correspondence on every run (case kind mh: "
+        "the model's own SHA-256 tree hash of the crate's bytes), not by kernel evaluation",
+    ],
+    "trivial": r"^(refused|ERR|REJECT|bad-|A=- REJECT[^|]*\|\| B=- REJECT)",
+    "level": "proof",
+    "rule": "(mh) the singleton mod hash constant and the model's tree hash of the crate's puzzle bytes. (ff) genuine singletons built by the harness: the real "
+            "SINGLETON_TOP_LAYER_V1_1 curried by hand with (mod hash, launcher id, launcher puzzle hash) and one of three solution-driven inner puzzles (1, (c (q . remark) 1), (r 1)); "
+            "launcher + 1-3 generations (eve proof for generation 0, lineage proofs after), inner conditions = the odd CREATE_COIN of the next generation (with/without memos) plus "
+            "0-3 of {even CREATE_COIN, REMARK, RESERVE_FEE, CREATE_PUZZLE_ANNOUNCEMENT, ASSERT_HEIGHT/SECONDS_ABSOLUTE, ASSERT_MY_PUZZLEHASH, AGG_SIG_UNSAFE, AGG_SIG_PUZZLE}, "
+            "amounts from {1,3,5,1001,0x7f,0x81,2^63-1,2^64-1} (constant along the chain in half of the cases, an even amount in 1/12); every generation x 5 rebase targets "
+            "(parents ab.., 00.., ff.., pool id; amounts incl. even, 2^63+1, 2^64-1; the coin's own place and its successor's); for the last generation EVERY single-field corruption "
+            "of an accepted call (55: mod nil / one atom, struct mod hash flipped / 31 bytes, launcher id flipped / other, launcher puzzle hash flipped / 31 bytes, inner puzzle, "
+            "curry terminator / extra / missing argument / proper-list struct / apply terminator / apply opcode / cons terminator / uncurried, lineage parent flipped / 31 bytes, lineage inner "
+            "puzzle hash, lineage amount +2 / parity / negative, eve proof, short / atom lineage proof, solution amount +2 / parity / pair, missing inner solution / amount / nil solution, "
+            "each field of each of the three coins, all three puzzle hashes together) - expect refused - plus representations of the same call (leading-zero amounts, another odd new "
+            "amount) and extra trailing elements - expect accepted; a valid spend whose parent had another inner puzzle (refused); the two recorded /repo/ff-tests/*.spend with the "
+            "repository's own targets (quick: 8 of 48 each) and negative tests. Implementation output: ok + new solution / refused (~kind); prop= on the implementation's own results: "
+            "new solution = old with exactly the three fields replaced (tree comparison), original and rewritten spend both validated by run_spendbundle in mempool mode (with two "
+            "funding coins), equal CREATE_COIN sets, ASSERT_MY_AMOUNT / ASSERT_MY_PARENT_ID / ASSERT_MY_COIN_ID of the raw clvmr output hold for the new coin. "
+            "(fp) compute_puzzle_fingerprint on all 256 one-byte + 5 other opcodes x 22 argument shapes, generated mempool-valid lists and malformed lists from C01's generator. "
+            "(fpp) pairs of condition lists as two spends of the SAME coin (identity puzzle, list as solution) through run_spendbundle with MEMPOOL_MODE | COMPUTE_FINGERPRINT: "
+            "hand-picked pairs (length split ab|c vs a|bc, atoms that look like encodings, hint absent / nil / (()) / ((h)) / 33-byte / pair / atom / (h . more) / 1-byte, unknown and REMARK "
+            "conditions, reordering, ignored negative / oversized locks) x amounts {0,1,3}, and generated lists against a one-atom mutation / swap / drop / duplicate / added REMARK / "
+            "other list; prints both fingerprints and both conditions summaries; prop= (both accepted and fingerprints equal => summaries identical). "
+            "(dd) C01's bundle generator with value-flow bias through parse_spends::<MempoolVisitor> under random flag subsets: the ELIGIBLE_FOR_DEDUP bit of every spend vs the "
+            "closed form computed by independent harness code and by the model. non-trivial = distinct case that is not a refusal / error / rejection",
+    "level_text": "Proof (of everything that is logic of /repo). fast_forward_singleton: ff_iff - the model accepts exactly when the decoded parts satisfy the 17 guards; ff_shape - "
+                  "the result is ((new parent's parent, same lineage inner puzzle hash, canonical new parent amount) canonical new coin amount, same inner solution): exactly the three "
+                  "fields replaced, nothing else touched (tails the list decoders ignore are re-encoded as nil: the one recorded finding); ff_guards / ff_parent_same_puzzle - acceptance implies odd "
+                  "amounts, equal puzzle hashes, singleton mod hash twice, old coin's parent = coin id of (lineage parent, this very puzzle hash, lineage amount), revealed puzzle hashes "
+                  "to the coin's puzzle hash, new coin's parent = id of the new parent; ff_corruption - each of 18 single-field corruptions of an accepted call is refused or exhibits an "
+                  "explicit SHA-256 collision; ff_preserves - under SingletonSpec the rewritten solution runs, asserts the new coin's amount and parent id and yields the same morphed "
+                  "inner conditions. compute_puzzle_fingerprint: fp_stream + fp_injective - the byte stream (4-byte length prefixes, opcode first, opcode-determined arity, empty-atom hint "
+                  "marker) determines the list of parsed conditions of any two lists that parse (any flags; atoms < 2^32 bytes); fp_injective_accepted - two lists accepted by the "
+                  "parse_conditions model with equal fingerprints have equal parsed conditions or exhibit a collision. MempoolVisitor: dedup_flag_iff / dedup_flag / dedup_flag_bundle - "
+                  "for every accepted generator output the ELIGIBLE_FOR_DEDUP bits are exactly the closed form (no AGG_SIG_*, no SEND/RECEIVE_MESSAGE, created value >= coin amount), "
+                  "by a ghost-trace invariant over the condition loop.",
+    "level_note": "Trusted: Lean kernel + 3 standard axioms; hand models = code on the cases run (verdict, error kind, new solution bytes, fingerprints, summaries, flags all compared); "
+                  "clvmr and the singleton puzzle are external (SingletonSpec is a hypothesis; its conclusion is checked with real runs on every accepted case); atoms of 2^32 bytes or more "
+                  "(impossible in a clvmr Allocator) are excluded from fp_injective by hypothesis; SHA-256 collisions appear as explicit disjuncts. Known finding (genuine, benign; repair drafted in patches/repo_fix_c19.patch): trailing solution / lineage-proof "
+                  "elements are dropped by the rewrite.",
+    "technique": "Lean 4 theorems over executable models of fast_forward_singleton (FromClvm decoders as values), compute_puzzle_fingerprint (byte stream, unique decodability) and the "
+                 "MempoolVisitor (ghost-trace loop invariant) + differential correspondence with property predicates evaluated on real clvmr runs",
+    "trusted": ["clvmr (interpreter) and chia-puzzles (singleton_top_layer_v1_1 bytes and hash) are external: the puzzle's behaviour is the hypothesis structure SingletonSpec; its conclusion is checked by real runs",
+                "clvm-derive / clvm-traits decoders (list, curry, transparent representations; decode_number) are modelled by hand from their source and compared on every case"],
+}
